@@ -12,7 +12,6 @@ import (
 	"github.com/vipnode/vipnode/v2/internal/verif/vh"
 	"github.com/vipnode/vipnode/v2/internal/verif/vsched"
 	"github.com/vipnode/vipnode/v2/pool"
-	"github.com/vipnode/vipnode/v2/pool/balance"
 	"github.com/vipnode/vipnode/v2/pool/store"
 )
 
@@ -62,11 +61,8 @@ func c10Classify(err error) string {
 	if strings.Contains(err.Error(), "Transaction Conflict") {
 		return "conflict"
 	}
-	switch err.(type) {
-	case pool.VerifyFailedError:
+	if vh.IsRefused(err) {
 		return "refused"
-	case balance.LowBalanceError:
-		return "accepted"
 	}
 	return "accepted"
 }
